@@ -554,7 +554,7 @@ def _pixel_from_sniffer(ck, sites, payload_kw, label="size-sniffed-from-the-payl
                 bad.append(f"line {c.lineno}: {dim}={ast.unparse(v) if v is not None else 'missing'}")
                 continue
             defs = [b for b in __import__('contracts.c14_flow', fromlist=['bindings_of']).bindings_of(ck.fn, v.id)]
-            sn = [b for b in defs if b.kind == "other" and isinstance(b.node, ast.Assign) and isinstance(b.node.value, ast.Call)
+            sn = [b for b in defs if b.kind in ("other", "unpack") and isinstance(b.node, ast.Assign) and isinstance(b.node.value, ast.Call)
                   and dotted(b.node.value.func) == "_get_image_pixel_dimensions"]
             others = [b for b in defs if b not in sn]
             if not sn:
@@ -713,6 +713,20 @@ def image_sites(repo, tier):
                                                and reaching(ck.fn, ck.pm, "slide_number", c) is not None and reaching(ck.fn, ck.pm, "slide_number", c).kind == "param")]
         ck.add("unit", "image-carries-the-number-of-its-slide", not bad and bool(sites), f"lines {bad}")
         done(ck)
+    # ---- pptx: the relationship table handed to the slide processor is the one of that slide's own .rels part ----
+    ck = mk(PPTX, "_PptxContext.get_slide_relationships")
+    if ck:
+        _per_part_table(ck)
+        done(ck)
+    ck = mk(PPTX, "_process_slide_from_context")
+    if ck:
+        calls = [n for n in ast.walk(ck.fn) if isinstance(n, ast.Call) and isinstance(n.func, ast.Attribute) and n.func.attr == "get_slide_relationships"]
+        ok = len(calls) == 1 and len(calls[0].args) == 1 and isinstance(calls[0].args[0], ast.Name) and \
+            reaching(ck.fn, ck.pm, calls[0].args[0].id, calls[0]) is not None and reaching(ck.fn, ck.pm, calls[0].args[0].id, calls[0]).kind == "param" and \
+            calls[0].args[0].id == ck.fn.args.args[1].arg
+        ck.add("resolution", "relationships-of-the-slide-being-processed", ok, "" if ok else "get_slide_relationships is not called once with the slide path parameter",
+               definite=False)
+        done(ck)
     # ---- xlsx ----
     ck = mk(XLSX, "_extract_images_from_zip")
     if ck:
@@ -782,6 +796,58 @@ def image_sites(repo, tier):
         _pdf(ck)
         done(ck)
     return {"obligations": obls, "functions": fns, "undecided": und}
+
+
+def _per_part_table(ck):
+    """`get_slide_relationships(slide_path)`: the table returned is built in this call from the relationship root stored for the SAME
+    path, and cached under the same path (relationship ids are scoped by the part that owns the .rels)."""
+    from contracts.c14_flow import reaching
+    fn = ck.fn
+    par = fn.args.args[1].arg if len(fn.args.args) > 1 else None
+    bad = []
+    rets = [n for n in ast.walk(fn) if isinstance(n, ast.Return) and n.value is not None]
+    fresh = set()
+    for r in rets:
+        v = r.value
+        if isinstance(v, ast.Name):
+            b = reaching(fn, ck.pm, v.id, r)
+            if b is None or b.kind != "assign" or not (isinstance(b.value, ast.Dict) and not b.value.keys):
+                bad.append(f"line {r.lineno}: the returned table {v.id} is not created empty in this call")
+            else:
+                fresh.add(v.id)
+        elif isinstance(v, ast.Subscript) and isinstance(v.slice, ast.Name) and v.slice.id == par:
+            pass        # cached table of the same path
+        else:
+            bad.append(f"line {r.lineno}: returns {ast.unparse(v)[:50]}")
+    for n in ast.walk(fn):
+        if isinstance(n, ast.Subscript) and isinstance(n.value, ast.Attribute) and n.value.attr.startswith("_slide_rel"):
+            if not (isinstance(n.slice, ast.Name) and n.slice.id == par):
+                bad.append(f"line {n.lineno}: {ast.unparse(n)[:50]} is not keyed by the slide path")
+        if isinstance(n, ast.Call) and isinstance(n.func, ast.Attribute) and n.func.attr == "get" and isinstance(n.func.value, ast.Attribute) \
+                and n.func.value.attr.startswith("_slide_rel"):
+            if not (n.args and isinstance(n.args[0], ast.Name) and n.args[0].id == par):
+                bad.append(f"line {n.lineno}: {ast.unparse(n)[:50]} is not keyed by the slide path")
+        if isinstance(n, ast.Compare) and any(isinstance(c, ast.Attribute) and c.attr.startswith("_slide_rel") for c in n.comparators):
+            if not (isinstance(n.left, ast.Name) and n.left.id == par):
+                bad.append(f"line {n.lineno}: {ast.unparse(n)[:50]} does not test the slide path")
+    # entries: table[id] = {"target": rel["target"], ...} with rel ranging over parse_relationships(<root looked up by the path>)
+    stores = [n for n in ast.walk(fn) if isinstance(n, ast.Assign) and isinstance(n.targets[0], ast.Subscript) and isinstance(n.targets[0].value, ast.Name)
+              and n.targets[0].value.id in fresh]
+    ok_store = False
+    for st in stores:
+        if isinstance(st.value, ast.Dict):
+            d = {k.value: v for k, v in zip(st.value.keys, st.value.values) if isinstance(k, ast.Constant)}
+            tv = d.get("target")
+            if isinstance(tv, ast.Subscript) and isinstance(tv.value, ast.Name) and isinstance(tv.slice, ast.Constant) and tv.slice.value == "target" \
+                    and isinstance(st.targets[0].slice, ast.Name):
+                kb = reaching(fn, ck.pm, st.targets[0].slice.id, st)
+                if kb is not None and kb.kind == "assign" and ast.unparse(kb.value) == f"{tv.value.id}['id']":
+                    ok_store = True
+                    continue
+        bad.append(f"line {st.lineno}: entry {ast.unparse(st)[:70]}")
+    if not rets or par is None or not stores:
+        return ck.unknown("resolution", "relationship-table-of-the-given-part", "shape not recognised")
+    ck.add("resolution", "relationship-table-of-the-given-part", not bad and ok_store, "; ".join(bad), definite=False)
 
 
 def _payload_only(ck, sites, payload_kw, reads):
